@@ -323,15 +323,19 @@ PROPS['C16'] = dict(
     events='wrf', state=['ret', 'ctl', 'rel', 'srv', 'quota', 'h', 'conn', 'live', 'pq', 'cp', 'gen'],
     monitors=[M.mon_c16, M.mon_panic],
     title='with a responsive broker every accepted operation completes; the session quiesces',
-    claim='Proved in Coq for all states: poll()/recv() never return idle (only a message, "advanced", an error or a dropped '
-          'future); the engine never picks an entry already sent on this connection; every write step moves the recorded offset '
-          'strictly forward or completes the entry; a completed entry is flushed next; a flushed acknowledgement or PINGREQ leaves '
-          'its queue. Quiescence itself is checked: every generated history (faults, cancellations, reconnects, small arenas, '
-          'Receive Maximum pressure), followed by the benign continuation — transport healed, broker answering every packet '
-          'including the CONNECT (session present iff no clean start), reconnect, 40 polls — must end live with no owed '
-          'acknowledgement, no pending PUBREL, a publish-quiescent session and no pending handle; a poll that returns without a '
-          'message must have made wire progress; an operation performing 50000 I/O calls (model: fuel) is reported as spinning.',
-    note='Partial: the bounded-drain statement is a check over generated histories, not a theorem (the step facts are). '
+    claim='Proved in Coq: a weight on the three outbound queues (per entry 2 + unwritten bytes while being written, 1 while awaiting '
+          'its flush, 0 once sent) is strictly decreased by every write step and every flush step of the engine in every state '
+          'satisfying the session invariant, which holds in every reachable world; at machine level every engine step that reports '
+          'progress has strictly decreased the work of the session - so between two enqueues and within one connection the engine '
+          'performs at most `work` steps, writes nothing for ever and nothing twice; poll()/recv() never return idle (only a message, '
+          '"advanced", an error or a dropped future); an entry already sent on this connection is never picked again; a completed '
+          'entry is flushed next; a flushed acknowledgement or PINGREQ leaves its queue. Quiescence itself is checked: every generated '
+          'history (faults, cancellations, reconnects, small arenas, Receive Maximum pressure), followed by the benign continuation - '
+          'transport healed, broker answering every packet including the CONNECT (session present iff no clean start), reconnect, 40 '
+          'polls - must end live with no owed acknowledgement, no pending PUBREL, a publish-quiescent session and no pending handle; a '
+          'poll that returns without a message must have made wire progress; an operation performing 50000 I/O calls (model: fuel) is '
+          'reported as spinning.',
+    note='Partial: termination of the engine between enqueues is a theorem (strictly decreasing measure); that the broker\'s answers then arrive and complete every handle within a bounded number of polls is a check over generated histories. '
          'Trusted: Coq kernel, model, extraction, harness with its healing action and automatic broker. No axioms. '
          'Known finding K12 (arena too full to reconnect) blocks the drain and is reported as KNOWN-FINDING.')
 
